@@ -9,6 +9,7 @@ import (
 	"io"
 	"sort"
 	"strings"
+	"syscall"
 	"time"
 
 	"github.com/metal-toolbox/auditevent"
@@ -38,7 +39,7 @@ func (d dressedErr) Error() string   { return "sink: " + d.as.Error() + " (" + e
 func (d dressedErr) Is(t error) bool { return t == errInjected || t == d.as }
 func (d dressedErr) Unwrap() error   { return d.as }
 
-var failKinds = []error{errInjected, dressedErr{context.Canceled}, dressedErr{io.EOF}, dressedErr{context.DeadlineExceeded}}
+var failKinds = []error{errInjected, dressedErr{context.Canceled}, dressedErr{io.EOF}, dressedErr{context.DeadlineExceeded}, dressedErr{syscall.EINTR}, dressedErr{syscall.EAGAIN}}
 
 // recorder is the auditevent.EventEncoder behind the real EventWriter: it
 // keeps the pointer it was given (C05 compares identity) and a deep copy with
@@ -49,10 +50,15 @@ type recorder struct {
 	other  []string
 	fail   bool
 	kind   int // which of failKinds a failing Encode returns
+	failN  int // fail the next failN calls (a transient fault), then succeed
 }
 
 func (r *recorder) Encode(v any) error {
 	if r.fail {
+		return failKinds[r.kind%len(failKinds)]
+	}
+	if r.failN > 0 {
+		r.failN--
 		return failKinds[r.kind%len(failKinds)]
 	}
 	e, ok := v.(*auditevent.AuditEvent)
